@@ -218,6 +218,11 @@ func scenario(cfg Config, n *int) *explore.Scenario {
 			in.Threads = append(in.Threads, func() {
 				sched.Block("wait for the first writer", func() bool { return writerDone })
 				sched.Touch(&writerDone)
+				if sched.DeadNamed("writer") {
+					// the first writer's process was killed: nothing it held in memory (package-level
+					// buffers, pools, flags) exists in the process that writes next
+					cdi.VerifResetGlobals()
+				}
 				c2, _ := cdi.NewCache(cdi.WithSpecDirs(dir), cdi.WithAutoRefresh(false))
 				write2Err = c2.WriteSpec(shortSpec(), "target"+cfg.Ext)
 				readerObs = fmt.Sprintf("second-write:%v", write2Err == nil)
